@@ -10,12 +10,13 @@ import (
 
 type bsGenState struct {
 	rng       *Rng
-	nextDC    uint64   // next deposit count on the current fork
+	nextDC    uint64 // next deposit count on the current fork
 	dcAtBlock map[uint64]uint64
 	tip       uint64
 	first     uint64
 	legacy    []common.Address
 	uniq      uint64
+	bounds    []int // statement index of each generated event's own row insert
 }
 
 func bsAmount(rng *Rng) string {
@@ -46,6 +47,7 @@ func bsNet(rng *Rng) uint32 {
 }
 
 func (g *bsGenState) events(bn uint64, n int, gapBridge bool) (string, int) {
+	g.bounds = g.bounds[:0]
 	rng := g.rng
 	var toks []string
 	stmts := 1
@@ -65,6 +67,7 @@ func (g *bsGenState) events(bn uint64, n int, gapBridge bool) (string, int) {
 			toks = append(toks, fmt.Sprintf("b;%d;%d;%d;%d;%s;%d;%s;%s;%s;%d;%s;%s;%s;%s", pos, dc, rng.Intn(2), bsNet(rng), hx(rng.Bytes(20)), bsNet(rng),
 				hx(rng.Bytes(20)), bsAmount(rng), bsMeta(rng), ts, tx, fa, hx(rng.Bytes(rng.Intn(12))), b2s(rng.Bool())))
 			stmts += 34
+			g.bounds = append(g.bounds, stmts-1) // the event's own row is its last statement
 		case k < 7:
 			gi := new(big.Int).SetUint64(uint64(rng.U32()))
 			if rng.Bool() {
@@ -73,11 +76,13 @@ func (g *bsGenState) events(bn uint64, n int, gapBridge bool) (string, int) {
 			toks = append(toks, fmt.Sprintf("c;%d;%s;%d;%s;%s;%s;%d;%s;%s;%s;%s;%s;%d;%s;%s", pos, gi.String(), bsNet(rng), hx(rng.Bytes(20)), hx(rng.Bytes(20)),
 				bsAmount(rng), bsNet(rng), bsMeta(rng), b2s(rng.Bool()), hx(rng.Bytes(32)), hx(rng.Bytes(32)), hx(rng.Bytes(32)), ts, tx, fa))
 			stmts++
+			g.bounds = append(g.bounds, stmts-1)
 		case k < 8 && !tmDone:
 			tmDone = true
 			toks = append(toks, fmt.Sprintf("t;%d;%d;%s;%s;%s;%s;%d;%d;%s;%s", pos, bsNet(rng), hx(rng.Bytes(20)), hx(rng.Bytes(20)), bsMeta(rng), b2s(rng.Bool()),
 				rng.Intn(2), ts, tx, hx(rng.Bytes(rng.Intn(9)))))
 			stmts++
+			g.bounds = append(g.bounds, stmts-1)
 		case k < 9:
 			la := common.BytesToAddress(rng.Bytes(20))
 			if len(g.legacy) > 0 && rng.Chance(30) {
@@ -86,6 +91,7 @@ func (g *bsGenState) events(bn uint64, n int, gapBridge bool) (string, int) {
 			g.legacy = append(g.legacy, la)
 			toks = append(toks, fmt.Sprintf("l;%d;%s;%s;%s;%s;%d;%s;%s", pos, hx(rng.Bytes(20)), hx(la[:]), hx(rng.Bytes(20)), bsAmount(rng), ts, tx, hx(rng.Bytes(rng.Intn(9)))))
 			stmts++
+			g.bounds = append(g.bounds, stmts-1)
 		default:
 			if len(g.legacy) == 0 {
 				continue
@@ -213,7 +219,7 @@ func bsWorldGen(r *Run, rng *Rng, w *bsWorld, steps int, allowRm bool) {
 				for _, q := range []string{"q lpb", "q bridges 0 5", "q exitroot 0", "q tms 1 10"} {
 					w.exec(r, q)
 				}
-				w.exec(r, fmt.Sprintf("blk %d - ", bn+1)) // refused while halted
+				w.exec(r, fmt.Sprintf("blk %d - ", bn+1))                       // refused while halted
 				w.exec(r, fmt.Sprintf("reorg %d", g.tip+1+uint64(rng.Intn(2)))) // removes nothing: stays halted
 				w.exec(r, "q halted")
 				w.checkHaltedQueries(r)
@@ -239,6 +245,9 @@ func bsWorldGen(r *Run, rng *Rng, w *bsWorld, steps int, allowRm bool) {
 				nf := 1 + rng.Intn(2)
 				for i := 0; i < nf; i++ {
 					k := rng.Intn(stmts + 1)
+					if len(g.bounds) > 0 && rng.Chance(35) {
+						k = g.bounds[rng.Intn(len(g.bounds))] // the row insert of one of the events (after its tree writes)
+					}
 					obs := w.exec(r, fmt.Sprintf("blk %d %d %s", bn, k, evs))
 					r.Count("branch:fault")
 					if obs == "ok" {
